@@ -61,6 +61,10 @@ func buildCkpt(r *lib.Rng, z *zoo) (*object, error) {
 	rerun := z.flag("rerun", r.Chance(1, 2))
 	after := z.flag("after", r.Chance(1, 2))
 	dag := z.flag("dag", r.Chance(1, 2))
+	// round 6: the nested graph declares a state of its own in two thirds of the cases that have one — its
+	// checkpoint then carries that state, and a resume inside it hands the call's state modifier (which
+	// reaches the nested run through the context) the nested state under the path [sg]
+	subState := withSub && z.flag("substate", r.Chance(2, 3))
 	must := &errs{}
 	store := &memStore{m: map[string][]byte{}}
 
@@ -77,6 +81,9 @@ func buildCkpt(r *lib.Rng, z *zoo) (*object, error) {
 	last := "a"
 	if withSub {
 		inner := compose.NewGraph[V, V]()
+		if subState {
+			inner = compose.NewGraph[V, V](compose.WithGenLocalState(z.genState))
+		}
 		must.add(inner.AddLambdaNode("i1", compose.InvokableLambdaWithOption(z.nodeVOpt("sg.i1"))))
 		must.add(inner.AddLambdaNode("i2", compose.InvokableLambda(z.nodeV("sg.i2"))))
 		must.add(inner.AddEdge(compose.START, "i1"))
@@ -156,7 +163,7 @@ func buildCkpt(r *lib.Rng, z *zoo) (*object, error) {
 		trail += "I(|a||)"
 	}
 	if withSub {
-		di := &dGraph{}
+		di := &dGraph{state: subState}
 		di.node("i1", fn1("FV", "sg.i1"), 0)
 		di.node("i2", fn1("FV", "sg.i2"), -1)
 		di.edge(compose.START, "i1")
@@ -197,14 +204,31 @@ func buildCkpt(r *lib.Rng, z *zoo) (*object, error) {
 				mWithShared(sp.Opt, mshared, mLambdaOpts(si, sp.Opt, "a", "b")), trail)
 		},
 		kind:  "ckpt",
-		shape: []string{fmt.Sprintf("sub:%v", withSub), fmt.Sprintf("rerun:%v", rerun), fmt.Sprintf("after:%v", after), fmt.Sprintf("dag:%v", dag)},
+		shape: []string{fmt.Sprintf("sub:%v", withSub), fmt.Sprintf("rerun:%v", rerun), fmt.Sprintf("after:%v", after), fmt.Sprintf("dag:%v", dag), fmt.Sprintf("substate:%v", subState)},
 		nIn:   3, paras: allParas,
-		optSet:  []int{0, optLambdaDesignated, optCbGlobal, optCbThree, optCtxHandlers, optShared, optShared | optLambdaDesignated | optCbGlobal},
-		baseCtx: sharedCtx,
+		optSet:  []int{0, optLambdaDesignated, optCbGlobal, optCbThree, optCtxHandlers, optShared, optShared | optLambdaDesignated | optCbGlobal, optStateMod, optStateMod | optShared, optStateMod | optLambdaDesignated},
+		baseCtx: sharedCtx, wantOpt: optStateMod,
 		call: func(ctx context.Context, rc *callRec, sp spec) string {
 			in := V{ID: rc.tag, Lim: sp.In, H: fmt.Sprintf("in%d", sp.In)}
 			own := append(lambdaOpts(rc, sp.Opt, "a", "b"), cbOptions(rc, sp.Opt, nil)...)
 			own = append(own, compose.WithCheckPointID("cp"+rc.tag))
+			if sp.Opt&optStateMod != 0 {
+				// a per-call state modifier: every resume of THIS session must hand it the state restored
+				// from THIS session's checkpoint, under the context of THIS call (round 6)
+				tag := rc.tag
+				own = append(own, compose.WithStateModifier(func(ctx context.Context, path compose.NodePath, state any) error {
+					c := ev(ctx, "ctx:sm:/"+strings.Join(path.GetPath(), "/"))
+					if c.tag != tag {
+						c.violate(fmt.Sprintf("the state modifier that call %s brought was invoked in a run of call %s", tag, c.tag))
+					}
+					if st, ok := state.(*St); ok && st != nil {
+						stCheck(ctx, "state modifier", st)
+					} else {
+						c.violate(fmt.Sprintf("state modifier of call %s: state is %T, not the *St of the graph", tag, state))
+					}
+					return nil
+				}))
+			}
 			opts := withShared(sp.Opt, shared, own)
 			trail := ""
 			for round := 0; round < 8; round++ {
